@@ -25,7 +25,9 @@ impl Tabs {
     }
 
     pub fn expand(&mut self, mut start: usize, end: usize) {
-        start += 8 - start % 8;
+        if start % 8 != 0 {
+            start += 8 - start % 8;
+        }
 
         for t in (start..end).step_by(8) {
             self.0.push(t);
